@@ -147,6 +147,7 @@ def handle (st : St) (line : String) : St × Option String :=
     | some "CM" => (st, some (opCompiles st head path))
     | some "GT" | some "G" => (st, some (opGet st head path out))
     | some "GR" => (st, some (opReflectGet st head path out))
+    | some "FC" => (st, some (genOpCmpSpecial st path out))
     | some "CP" => (st, some (opCopy st head out))
     | some "CT" => (st, some (opCopyTo st head out))
     | some "RS" => (st, some (opReset st head out))
